@@ -312,7 +312,7 @@ def run(ctx):
                   "leaf scale factors: all reals; leaf dimensions: all real 8-vectors; exponents: symbolic number, quantity, or constants 2, -1, 1/2",
                   f"z3 timeout {TIMEOUT_MS} ms"]
     ctx.outside = ["infinite/NaN leaf values in the solver-decided part (symbolic reals are finite): a finite list of concrete trees with a 0 / 0.0 / oo / -oo / NaN term is executed instead and reported as trivial obligations", "complex scale factors", "values outside the definedness domain of a power (0**-1)",
-                   "Prefix leaves", "deeper trees"]
+                   "Prefix leaves in the solver-decided trees (a finite list of decimal and binary prefixes is executed concretely)", "deeper trees"]
     ctx.trusted = ["z3", "vlib/qspec.py (the statement's compositional semantics)", "stubs listed", "SymPy Add/Mul/Pow canonicalisation of the input tree"]
     res = pmap(check_recipe, items)
     groups = {}
@@ -356,6 +356,36 @@ def three_s(): return Quantity(3 * units.second)
 SHAPES = {"q+3s": lambda q: q + three_s(), "3s+q": lambda q: three_s() + q, "Add(q,3s) unevaluated": lambda q: sp.Add(q, three_s(), evaluate=False),
           "Max(q,3s)": lambda q: sp.Max(q, three_s(), evaluate=False), "Min(3s,q)": lambda q: sp.Min(three_s(), q, evaluate=False),
           "q*5m+3s": lambda q: q * Quantity(5 * units.meter) + three_s(), "abs(q)+3s": lambda q: abs(q) + three_s()}
+# shapes whose VALUE is pinned by the statement even for special magnitudes: (expression, expected scale factor as a function of the value)
+VALUED = {"Abs(q) unevaluated": (lambda q: sp.Abs(q, evaluate=False), lambda v: sp.Abs(v)),
+          "Max(Abs(q) unevaluated, 5 m)": (lambda q: sp.Max(sp.Abs(q, evaluate=False), Quantity(5 * units.meter), evaluate=False), lambda v: sp.Max(sp.Abs(v), 5)),
+          "-q": (lambda q: -q, lambda v: -v), "q**2": (lambda q: q**2, lambda v: v**2)}
+def valued(vname, shape):
+    mk, want = VALUED[shape]
+    try:
+        r = Quantity(mk(Quantity(VALUES[vname] * units.meter)))
+        w = want(sp.sympify(VALUES[vname]))
+        same = (r.scale_factor == w) or (w is sp.nan and r.scale_factor is sp.nan) or (w.is_finite and abs(sp.N(r.scale_factor - w)) < 1e-12)
+        return bool(same), f"scale {r.scale_factor} (expected {w}), dimension {r.dimension}"
+    except Exception as ex:
+        return False, f"raised {type(ex).__name__}: {ex}"
+# prefixes are leaves of the expression grammar too: number * prefix * unit, decimal and binary
+def prefixed():
+    from sympy.physics.units import prefixes as P
+    bad = []
+    for pname in ("kilo", "milli", "micro", "mega", "kibi", "mebi", "gibi"):
+        pr = getattr(P, pname)
+        for label, mk in (("3*prefix*m", lambda: 3 * pr * units.meter), ("m*prefix", lambda: units.meter * pr), ("q*prefix", lambda: Quantity(2 * units.meter) * pr), ("prefix**2*m", lambda: pr**2 * units.meter)):
+            coef = {"3*prefix*m": 3, "m*prefix": 1, "q*prefix": 2, "prefix**2*m": 1}[label]
+            power = 2 if label.startswith("prefix**2") else 1
+            try:
+                r = Quantity(mk())
+                want = coef * sp.sympify(pr.scale_factor) ** power
+                if abs(sp.N(r.scale_factor - want)) > 1e-9 * abs(sp.N(want)) or not dimsys_SI.equivalent_dims(r.dimension, units.length):
+                    bad.append(f"{label} with {pname}: scale {r.scale_factor}, expected {want}")
+            except Exception as ex:
+                bad.append(f"{label} with {pname}: raised {type(ex).__name__}: {ex}")
+    return bad
 def special(vname, shape):
     """(ok, text): a term of value 0/oo/NaN metres added to / compared with 3 s must be accepted with the dimension of time"""
     try:
@@ -388,3 +418,17 @@ def concrete_specials(ctx):
             else:
                 ctx.violation(f"C05:special:{vname}:{shape}", f"{shape} with q = {vname} m: {text}; a zero/infinite/NaN term is compatible with any dimension (expected: time)",
                               REPLAY_SPECIAL.replace("@VNAME@", repr(vname)).replace("@SHAPE@", repr(shape)))
+        for shape in ns["VALUED"]:
+            if vname == "nan" and "Max" in shape:
+                continue
+            ok, text = ns["valued"](vname, shape)
+            if ok:
+                ctx.ob(f"special-value:{vname}:{shape}", "discharged", nontrivial=False)
+            else:
+                ctx.violation(f"C05:special-value:{vname}:{shape}", f"{shape} with q = {vname} m: {text}; the scale factor must be the value of the expression",
+                              REPLAY_SPECIAL.replace("ok, text = special(@VNAME@, @SHAPE@)", "ok, text = valued(@VNAME@, @SHAPE@)").replace("@VNAME@", repr(vname)).replace("@SHAPE@", repr(shape)))
+    badp = ns["prefixed"]()
+    if badp:
+        ctx.violation("C05:prefix-leaves", "; ".join(badp[:4]) + f" ({len(badp)} cases)", SPECIAL_SRC + "\nimport sys\nb = prefixed()\nprint(b)\nif b:\n    print('REPRODUCED'); sys.exit(1)\n")
+    else:
+        ctx.ob("prefix leaves (decimal and binary) times units and quantities", "discharged", nontrivial=False)
